@@ -1,8 +1,11 @@
 package vh
 
 import (
+	"flag"
 	"fmt"
 	"os"
+	"strconv"
+	"strings"
 	"testing"
 )
 
@@ -12,6 +15,9 @@ func TestMain(m *testing.M) {
 	if os.Getenv("VERIF_CHILD") != "" {
 		childMain()
 		return
+	}
+	if os.Getenv("VERIF_NATIVE_FUZZ") != "" {
+		os.Exit(m.Run()) // native fuzzing: the testing package's verdict is the verdict
 	}
 	m.Run() // sub-tests hosted for the library under test may fail on purpose: the exit code is ours
 	if os.Getenv("VERIF_PROP") == "" {
@@ -49,4 +55,43 @@ func TestHost(t *testing.T) {
 	}
 	t.Parallel()
 	serveHost(t)
+}
+
+func childMain() {
+	flag.Parse() // TestMain runs before the testing flags are parsed; the library reads testing.Short()
+	switch os.Getenv("VERIF_CHILD") {
+	case "fresh":
+		initWork()
+		defer os.RemoveAll(workRoot)
+		dir := EnterCaseDir()
+		cases := firstCases(1)
+		LeaveCaseDir(dir)
+		if len(cases) > 0 {
+			fmt.Println(cases[0])
+		}
+	case "crash":
+		crashChild()
+	case "fuzzconv":
+		if err := fuzzConv(os.Getenv("VERIF_FUZZ_TARGET"), os.Getenv("VERIF_FUZZ_FILE"), os.Getenv("VERIF_OUT")); err != nil {
+			fmt.Fprintln(os.Stderr, "fuzzconv:", err)
+			os.Exit(1)
+		}
+	}
+}
+
+// parseCorpusBytes decodes a "go test fuzz v1" corpus file holding one []byte value.
+func parseCorpusBytes(b []byte) ([]byte, error) {
+	lines := strings.Split(strings.TrimSpace(string(b)), "\n")
+	if len(lines) < 2 || !strings.HasPrefix(lines[0], "go test fuzz v1") {
+		return nil, fmt.Errorf("not a corpus file")
+	}
+	l := strings.TrimSpace(lines[1])
+	if !strings.HasPrefix(l, "[]byte(") || !strings.HasSuffix(l, ")") {
+		return nil, fmt.Errorf("unexpected corpus entry %q", l)
+	}
+	s, err := strconv.Unquote(l[len("[]byte(") : len(l)-1])
+	if err != nil {
+		return nil, err
+	}
+	return []byte(s), nil
 }
